@@ -153,7 +153,22 @@ def run(f, fixture, rep, cfg, tier):
                 continue
             srcs = set()
             if info["kind"] == "bool":
-                srcs.add(info["call"].decl)
+                gc = info["call"]
+                if re.search(r"^std::(result::Result|option::Option)::<.*>::(unwrap_or|unwrap_or_default|is_ok_and|is_some_and|map_or|unwrap_or_else)$", gc.decl):
+                    # a combinator chain over the query's result: what counts is the query underneath
+                    from common import call_leaves
+                    COMB = r"^std::(result::Result|option::Option)::<.*>::(map|ok|and_then|as_ref|map_err|filter)$"
+                    inner, work_, seen_ = set(), list(gc.args[:1]), 0
+                    while work_ and seen_ < 12:
+                        seen_ += 1
+                        for c_ in call_leaves(hb, work_.pop()):
+                            if re.search(COMB, c_.decl) and c_.args:
+                                work_.append(c_.args[0])
+                            else:
+                                inner.add(c_.decl)
+                    srcs |= inner or {gc.decl}
+                else:
+                    srcs.add(gc.decl)
             elif info["kind"] == "discr":
                 for lf in hb.origins({"l": info["place"]["l"], "p": []}):
                     srcs.add(lf["call"].decl if lf["kind"] == "call" else lf["kind"])
